@@ -461,9 +461,75 @@ fn square_case(idx: u64, sink: &mut Sink<'_>) {
     sink.pass(H64::new().u(form).u(buf_len(&conn) as u64).u(wire.write_count() as u64).get());
 }
 
+// ------------------------------------------------------------------------------------------------
+// (c) payloads that contain the terminator byte and other characters JSON has to escape
+
+#[derive(Debug, Serialize)]
+struct Odd {
+    c: char,
+    s: String,
+    m: BTreeMap<String, char>,
+}
+
+const ODD_CHARS: [char; 10] = ['\0', '\u{1}', '\n', '\u{1f}', '"', '\\', '\u{7f}', '\u{e9}', '\u{2028}', 'a'];
+
+/// Two messages whose payloads hold `ODD_CHARS[i]` / `ODD_CHARS[j]` as a `char`, inside a string and
+/// inside a map key, through one of three operation forms: each must reach the transport as one JSON
+/// document denoting the same value, followed by the only NUL byte of the message.
+fn odd_case(idx: u64, sink: &mut Sink<'_>) {
+    let n = ODD_CHARS.len() as u64;
+    let (form, i, j) = (idx / (n * n), (idx / n % n) as usize, (idx % n) as usize);
+    let mk = |c: char| Odd { c, s: format!("x{c}{c}y{c}"), m: BTreeMap::from([(format!("k{c}"), c)]) };
+    let case = || json!({"group": "odd-characters", "form": form, "first": format!("{:?}", ODD_CHARS[i]), "second": format!("{:?}", ODD_CHARS[j])});
+    let wire = Wire::new(0, None);
+    let mut conn = wire.connection();
+    let mut m = Model::new();
+    if ODD_CHARS[i] == '\0' || ODD_CHARS[j] == '\0' {
+        sink.goal("payload-contains-the-terminator-byte");
+    }
+    for (step, c) in [ODD_CHARS[i], ODD_CHARS[j]].into_iter().enumerate() {
+        let v = mk(c);
+        let (res, doc, flushes) = match form {
+            0 => {
+                let call = Call::new(&v);
+                (conn.enqueue_call(&call), serde_json::to_vec(&call).unwrap(), false)
+            }
+            1 => {
+                let r = Reply::new(Some(&v));
+                (complete(conn.send_reply(&r)), serde_json::to_vec(&r).unwrap(), true)
+            }
+            _ => (complete(conn.send_error(&v)), serde_json::to_vec(&v).unwrap(), true),
+        };
+        if let Err(e) = res {
+            sink.fail("outframe:valid-message-refused", format!("message {step} with {c:?}: {e:?}"), case());
+            return;
+        }
+        m.accept(doc);
+        if let Err((c, d)) = m.check(&wire, flushes, &format!("message {step}")) {
+            sink.fail(c, d, case());
+            return;
+        }
+    }
+    if let Err(e) = complete(conn.flush()) {
+        sink.fail("outframe:flush-failed", format!("{e:?}"), case());
+        return;
+    }
+    if let Err((c, d)) = m.check(&wire, true, "final flush") {
+        sink.fail(c, d, case());
+        return;
+    }
+    let all = wire.written();
+    if all.iter().filter(|b| **b == 0).count() != 2 || !Model::same(&m.accepted, &all) {
+        sink.fail("outframe:stream-differs", format!("whole stream `{}` is not two documents each followed by its only NUL", show(&all)), case());
+        return;
+    }
+    sink.steps(2);
+    sink.pass(H64::new().u(idx).get());
+}
+
 pub fn run(tier: Tier) -> i32 {
     let mut rep = Report::new("C02", tier.name());
-    rep.rule = "phase square: both message lengths from 1..=700 (all 490 000 pairs) x 4 operation forms (enqueue+enqueue+flush, send+send, enqueue+send, enqueue+flush+send), so every free-space value 0..=600 and every relation to the 256-byte step is met when the second message starts; phases hist*: DFS over all operation histories up to the stated length over {enqueue_call, send_call, send_reply, send_error} x lengths chosen relative to the current free space (1, 2, 9, free-2..free+2, free+254..free+258) + flush + 4 unserializable messages (tuple map key; Serialize impl failing after 0/5/150 elements) through enqueue and through send. Outcomes are distinct (pending length, write count) sequences; states are (buffer length, pending length, writes) triples".into();
+    rep.rule = "phase square: both message lengths from 1..=700 (all 490 000 pairs) x 4 operation forms (enqueue+enqueue+flush, send+send, enqueue+send, enqueue+flush+send), so every free-space value 0..=600 and every relation to the 256-byte step is met when the second message starts; phase odd-characters: every pair of payloads holding NUL / control / quote / backslash / DEL / non-ASCII / U+2028 as a char, inside a string and inside a map key x 3 operation forms (each message must carry exactly one NUL byte: its terminator); phases hist*: DFS over all operation histories up to the stated length over {enqueue_call, send_call, send_reply, send_error} x lengths chosen relative to the current free space (1, 2, 9, free-2..free+2, free+254..free+258) + flush + 4 unserializable messages (tuple map key; Serialize impl failing after 0/5/150 elements) through enqueue and through send. Outcomes are distinct (pending length, write count) sequences; states are (buffer length, pending length, writes) triples".into();
     rep.assumptions = vec![
         "serde_json::to_vec is the meaning of `the JSON document of a message`; a write that differs in bytes but splits at NUL into documents denoting the same values is accepted here (byte identity is C03)".into(),
         "the scripted WriteHalf accepts every write completely (write faults and partial writes are C09/C19)".into(),
@@ -488,6 +554,8 @@ pub fn run(tier: Tier) -> i32 {
     let wall = std::time::Duration::from_secs(tier.pick(60, 1500));
     let cfg = Config { max_wall: wall, ..Default::default() };
     rep.add(sweep("square", 4 * SQ * SQ, &cfg, square_case));
+    rep.require_goal("payload-contains-the-terminator-byte");
+    rep.add(sweep("odd-characters", 3 * (ODD_CHARS.len() * ODD_CHARS.len()) as u64, &cfg, odd_case));
     let plan: Vec<(&str, usize, bool)> = match tier {
         Tier::Quick => vec![("hist3-full", 3, false), ("hist4-reduced", 4, true)],
         Tier::Thorough => vec![("hist4-full", 4, false), ("hist5-reduced", 5, true)],
@@ -503,7 +571,7 @@ pub fn replay(v: &Value) -> Replayed {
     if v["kind"] == "sweep" {
         let idx = v["index"].as_u64().unwrap_or(0);
         let cfg = Config { threads: 1, ..Default::default() };
-        let st = xplore::sweep_one("square", idx, &cfg, square_case);
+        let st = if v["case"]["group"] == "odd-characters" { xplore::sweep_one("odd-characters", idx, &cfg, odd_case) } else { xplore::sweep_one("square", idx, &cfg, square_case) };
         return match st.violations.into_iter().next() {
             Some((class, rec)) => Replayed::Fail { trace: vec![format!("sweep case {}", v["case"])], class, detail: rec.detail },
             None => Replayed::Pass(vec![format!("sweep case {}", v["case"])]),
